@@ -3,7 +3,7 @@
 \* Measured: 127,311 distinct states, depth 44.
 CONSTANTS
   NV = 4
-  Power <- DrvUnitPower
+  PowerOf <- DrvPowerOf
   MaxVal = 1
   NValid = 1
   MaxRound = 0
